@@ -1407,30 +1407,42 @@ event_signal_closure(struct event_base *base, struct event *ev)
 
 	short ncalls;
 	int should_break;
+	void (*cb)(evutil_socket_t, short, void *);
+	evutil_socket_t fd;
+	short res;
+	void *arg;
 
 	/* Allows deletes to work, see also event_del_nolock_() that has
-	 * special treatment for signals */
+	 * special treatment for signals.  ncalls, ev_ncalls and ev_pncalls
+	 * are shared with event_del()/event_add()/event_active() running in
+	 * other threads, so they are only touched with the lock held. */
 	ncalls = ev->ev_ncalls;
 	if (ncalls != 0)
 		ev->ev_pncalls = &ncalls;
-	EVBASE_RELEASE_LOCK(base, th_base_lock);
 	while (ncalls) {
 		ncalls--;
 		ev->ev_ncalls = ncalls;
 		if (ncalls == 0)
 			ev->ev_pncalls = NULL;
-		(*ev->ev_callback)(ev->ev_fd, ev->ev_res, ev->ev_arg);
-
-		EVBASE_ACQUIRE_LOCK(base, th_base_lock);
-		should_break = base->event_break;
+		/* What the callback is invoked with is read while we still
+		 * hold the lock: another thread may re-activate the event
+		 * while the callback runs. */
+		cb = ev->ev_callback;
+		fd = ev->ev_fd;
+		res = ev->ev_res;
+		arg = ev->ev_arg;
 		EVBASE_RELEASE_LOCK(base, th_base_lock);
+		(*cb)(fd, res, arg);
+		EVBASE_ACQUIRE_LOCK(base, th_base_lock);
 
+		should_break = base->event_break;
 		if (should_break) {
 			if (ncalls != 0)
 				ev->ev_pncalls = NULL;
-			return;
+			break;
 		}
 	}
+	EVBASE_RELEASE_LOCK(base, th_base_lock);
 
 #if defined(__clang__)
 #elif defined(__GNUC__)
